@@ -272,6 +272,15 @@ def _call_arguments_with_repr(col, rule="C06.R2"):
                     (good if t[1] == "!r" else bad).append(t)
                 elif S.is_call_of(t, ("glob", "str")) and len(t[2]) == 1 and t[2][0] in forms:
                     bad.append(t)
+                elif t[:1] == ("op",) and t[1] == "%" and t[2][:1] == ("const",) and t[2][1][:1] in ("'", '"'):
+                    # printf-style: pair the conversions of the format string with the operands
+                    import re as _re
+                    convs = [c for c in _re.findall(r"%[-#0 +]*\d*(?:\.\d+)?([a-zA-Z%])", t[2][1]) if c != "%"]
+                    ops_ = list(t[3][1]) if t[3][:1] == ("tuple",) else [t[3]]
+                    if len(convs) == len(ops_):
+                        for cv, o in zip(convs, ops_):
+                            if o in forms:
+                                (good if cv == "r" else bad).append(t)
                 elif S.is_call_of(t, meth="join") and any(a in forms for a in t[2]):
                     bad.append(t)
         if not good and not bad:
